@@ -6,6 +6,10 @@ import (
 	"sort"
 	"strconv"
 	"strings"
+
+	rcontext "github.com/coreruleset/crs-toolchain/v2/context"
+	"github.com/coreruleset/crs-toolchain/v2/regex/parser"
+	"github.com/coreruleset/crs-toolchain/v2/regex/processors"
 )
 
 // Metamorphic suites on the real binary: a program and the program in which the
@@ -28,6 +32,19 @@ type metaCase struct {
 	expectA string // "" | "fail": A must fail
 	fsArg   string
 	cfg     [6]string
+	orderFail string
+}
+
+// parseWithRoot runs the real parser (compile mode) with include/exclude files below root
+func parseWithRoot(root string, input string) (out string, ok bool) {
+	defer func() {
+		if p := recover(); p != nil {
+			ok = false
+		}
+	}()
+	ctx := processors.NewContext(rcontext.New(root, "toolchain.yaml"))
+	r := parser.VerifParse(ctx, input)
+	return r.Out, true
 }
 
 func runMeta(env *Env, res *Result, cases []*metaCase, prop string, shapeOf func(*metaCase) string) {
@@ -278,6 +295,22 @@ func suiteC05Inline(env *Env, res *Result) {
 		}
 		before := []string{r.Pick([]string{"foo", "ba[rz]", "x+y"})}
 		after := []string{r.Pick([]string{"qux", "end$", "\\d+z"})}
+		if strings.Contains(kind, "owndef") {
+			// definitions made in F must not leak: the includer references the name without defining it
+			// (stays literal text), or defines the same name itself with another value
+			switch r.Intn(4) {
+			case 0:
+				before = append(before, "lit{{incdef}}")
+				kind += "+undefined-ref-in-includer"
+			case 1:
+				before = append([]string{"##!> define incdef OWN"}, before...)
+				before = append(before, "mine{{incdef}}")
+				kind += "+same-name-defined-before"
+			case 2:
+				after = append(after, "mine{{incdef}}", "##!> define incdef OWN")
+				kind += "+same-name-defined-after"
+			}
+		}
 		if r.Chance(1, 3) {
 			before = nil
 		}
@@ -472,6 +505,50 @@ func suiteC06Except(env *Env, res *Result) {
 		c := &metaCase{kind: kind, tree: tree, a: build([]string{directive}), b: build(hand), fsArg: fsArgOf(tree)}
 		c.input = map[string]interface{}{"program": c.a, "by_hand": c.b, "files": tree}
 		cases = append(cases, c)
+	}
+	// the order of the surviving entries, observed on the parser itself (the alternation hides it):
+	// whatever the iteration order of the line map, the result must be a subsequence of F's entries
+	parallelFor(len(cases), func(i int) {
+		c := cases[i]
+		if !strings.Contains(c.kind, "include-except") || strings.Contains(c.kind, "pairs") {
+			return
+		}
+		root := mkScratch(env, "c06p")
+		defer os.RemoveAll(root)
+		writeTree(root, c.tree)
+		fEntries, _, _, _ := ownBuffer(c.tree["regex-assembly/include/f.ra"])
+		directive := ""
+		for _, l := range strings.Split(c.a, "\n") {
+			if strings.HasPrefix(l, "##!> include-except") {
+				directive = l
+			}
+		}
+		for k := 0; k < 12; k++ {
+			out, ok := parseWithRoot(root, directive+"\n")
+			if !ok {
+				return
+			}
+			got := strings.Split(strings.TrimSuffix(out, "\n"), "\n")
+			if out == "" {
+				got = nil
+			}
+			j := 0
+			for _, g := range got {
+				for j < len(fEntries) && fEntries[j] != g {
+					j++
+				}
+				if j == len(fEntries) {
+					c.orderFail = fmt.Sprintf("parser output %q is not a subsequence of F's entries %q", got, fEntries)
+					return
+				}
+				j++
+			}
+		}
+	})
+	for _, c := range cases {
+		if c.orderFail != "" {
+			res.addFailure(Failure{Kind: "C06", Shape: "c06_order_not_preserved", Input: c.input, Detail: c.orderFail})
+		}
 	}
 	runMeta(env, res, cases, "C06", func(c *metaCase) string { return "c06_differs_from_by_hand" })
 }
